@@ -884,8 +884,41 @@ fn node_tags(nodes: &[Node], out: &mut BTreeSet<String>, in_for: bool) {
     }
 }
 
+/// `slot:` value references on an element that is not a direct child of the component whose slot
+/// it fills (it sits under a wx:if / wx:for / block inside the component's children)
+fn slot_ref_wrapper_tags(nodes: &[Node], in_comp_children: bool, wrapped: bool, out: &mut BTreeSet<String>) {
+    const COMPS: &[&str] = &["plain", "multi", "mchild", "mnest", "dyn", "dynnk", "dynt", "dynn"];
+    for n in nodes {
+        match n {
+            Node::El { tag, attrs, children } => {
+                if in_comp_children && wrapped && attrs.iter().any(|a| a.name.starts_with("slot:")) {
+                    out.insert("slot_ref_under_wrapper".into());
+                }
+                let is_comp = COMPS.contains(&tag.as_str());
+                slot_ref_wrapper_tags(children, is_comp, false, out);
+            }
+            Node::If { branches, else_, .. } => {
+                for (_, ch) in branches {
+                    slot_ref_wrapper_tags(ch, in_comp_children, in_comp_children, out);
+                }
+                if let Some(ch) = else_ {
+                    slot_ref_wrapper_tags(ch, in_comp_children, in_comp_children, out);
+                }
+            }
+            Node::For { children, .. } => slot_ref_wrapper_tags(children, in_comp_children, in_comp_children, out),
+            Node::Block(ch) => slot_ref_wrapper_tags(ch, in_comp_children, in_comp_children, out),
+            _ => {}
+        }
+    }
+}
+
 pub fn world_tags(w: &World) -> BTreeSet<String> {
     let mut out = BTreeSet::new();
+    for f in &w.files {
+        if f.raw.is_none() {
+            slot_ref_wrapper_tags(&f.body, false, false, &mut out);
+        }
+    }
     for f in &w.files {
         if f.raw.is_some() {
             continue;
